@@ -321,8 +321,18 @@ func isSigningProposalOf(reDKG *ReDKG, msg storage.Message) bool {
 	if reDKG.DKGID == "" || msg.DkgRoundID != reDKG.DKGID {
 		return false
 	}
-	var proposal requests.SigningBatchProposalStartRequest
-	if err := json.Unmarshal(msg.Data, &proposal); err != nil || proposal.BatchID == "" || len(proposal.SigningTasks) == 0 {
+	// (a signing proposal names a batch and its tasks; the 0.1.4 release, whose boards this tool is
+	// also run on, had no batches: a signing id and the payload to sign)
+	var proposal struct {
+		BatchID      string
+		SigningTasks []json.RawMessage
+		SigningID    string
+		SrcPayload   []byte
+	}
+	if err := json.Unmarshal(msg.Data, &proposal); err != nil {
+		return false
+	}
+	if (proposal.BatchID == "" || len(proposal.SigningTasks) == 0) && (proposal.SigningID == "" || len(proposal.SrcPayload) == 0) {
 		return false
 	}
 	for _, p := range reDKG.Participants {
